@@ -271,6 +271,8 @@ pub struct ExtCfg {
     pub task_fb: bool,
     pub invalid_bcd: bool,
     pub string_to_char_any: bool,
+    /// JMP out of a nested block / loop body to a label of an enclosing block (F51).
+    pub jmp_nested: bool,
     pub max_stmts: usize,
 }
 
@@ -299,6 +301,8 @@ pub struct Ext<'t> {
     refs: Vec<(String, T)>,
     out: ExtOut,
     depth_cap: u32,
+    /// Counter for unique label names.
+    labels: u32,
 }
 
 fn dummy_prog() -> crate::stgen::ast::Program {
@@ -324,7 +328,29 @@ impl<'t> Ext<'t> {
             refs: Vec::new(),
             out: ExtOut::default(),
             depth_cap: 3,
+            labels: 0,
         }
+    }
+
+    /// Formal (named) arguments in a tape-drawn order (formal arguments are order free); the
+    /// ascending order is one of the permutations.
+    fn permuted(&mut self, mut parts: Vec<String>) -> String {
+        let n = parts.len();
+        let mut moved = false;
+        for i in (1..n).rev() {
+            let j = self.r.pick(i + 1);
+            if j != i {
+                moved = true;
+            }
+            parts.swap(i, j);
+        }
+        self.feat(if moved { "named_order:permuted" } else { "named_order:as_declared" });
+        parts.join(", ")
+    }
+
+    fn new_label(&mut self) -> String {
+        self.labels += 1;
+        format!("xl{}", self.labels)
     }
 
     fn feat(&mut self, f: &str) {
@@ -1390,10 +1416,12 @@ impl<'t> Ext<'t> {
         if !sc.bool_w.is_empty() && self.r.chance(2, 3) {
             labels.push("eno_bound".into());
             let ok = sc.bool_w[self.r.pick(sc.bool_w.len())].clone();
-            format!("XEn(EN := {en}, a := {a}, ENO => {ok})")
+            let args = self.permuted(vec![format!("EN := {en}"), format!("a := {a}"), format!("ENO => {ok}")]);
+            format!("XEn({args})")
         } else {
             labels.push("eno_unbound".into());
-            format!("XEn(EN := {en}, a := {a})")
+            let args = self.permuted(vec![format!("EN := {en}"), format!("a := {a}")]);
+            format!("XEn({args})")
         }
     }
 
@@ -1421,6 +1449,7 @@ impl<'t> Ext<'t> {
                 if has("SUPER.Stp") { 5 } else { 0 },   // 12
                 if has("inner") { 6 } else { 0 },       // 13 FB invocation
                 2,                                   // 14 call statement, result discarded
+                3,                                   // 15 labelled statements and JMP around a call
             ];
             match self.r.weighted(&wt) {
                 0 => {
@@ -1447,7 +1476,8 @@ impl<'t> Ext<'t> {
                         out.push(format!("{w} := XFn({a}, {b});"));
                     } else {
                         labels.push("named".into());
-                        out.push(format!("{w} := XFn(b := {b}, a := {a});"));
+                        let args = self.permuted(vec![format!("a := {a}"), format!("b := {b}")]);
+                        out.push(format!("{w} := XFn({args});"));
                     }
                 }
                 3 => {
@@ -1459,10 +1489,12 @@ impl<'t> Ext<'t> {
                     let io = sc.locals[self.r.pick(sc.locals.len())].clone();
                     if self.r.flag() {
                         labels.push("default_omitted".into());
-                        out.push(format!("{w} := XOut(a := {a}, o => {o}, io := {io});"));
+                        let args = self.permuted(vec![format!("a := {a}"), format!("o => {o}"), format!("io := {io}")]);
+                        out.push(format!("{w} := XOut({args});"));
                     } else {
                         let d = self.sc_expr(sc);
-                        out.push(format!("{w} := XOut(a := {a}, d := {d}, o => {o}, io := {io});"));
+                        let args = self.permuted(vec![format!("a := {a}"), format!("d := {d}"), format!("o => {o}"), format!("io := {io}")]);
+                        out.push(format!("{w} := XOut({args});"));
                     }
                 }
                 4 => {
@@ -1548,7 +1580,8 @@ impl<'t> Ext<'t> {
                     let a = self.sc_expr(sc);
                     if self.r.flag() {
                         labels.push("named".into());
-                        out.push(format!("{w} := XMid(go := {en}, x := {a});"));
+                        let args = self.permuted(vec![format!("go := {en}"), format!("x := {a}")]);
+                        out.push(format!("{w} := XMid({args});"));
                     } else {
                         labels.push("positional".into());
                         out.push(format!("{w} := XMid({en}, {a});"));
@@ -1559,7 +1592,13 @@ impl<'t> Ext<'t> {
                     let (en, l) = self.sc_en(sc);
                     labels.push(format!("go_{l}"));
                     let a = self.sc_expr(sc);
-                    out.push(format!("{w} := THIS.Helper({en}, {a});"));
+                    if self.r.flag() {
+                        labels.push("named".into());
+                        let args = self.permuted(vec![format!("go := {en}"), format!("x := {a}")]);
+                        out.push(format!("{w} := THIS.Helper({args});"));
+                    } else {
+                        out.push(format!("{w} := THIS.Helper({en}, {a});"));
+                    }
                 }
                 12 => {
                     labels.push("super_method".into());
@@ -1573,16 +1612,39 @@ impl<'t> Ext<'t> {
                     labels.push(format!("go_{l}"));
                     match self.r.pick(4) {
                         0 => out.push("inner();".into()),
-                        1 => out.push(format!("inner(i := {a}, go := {en});")),
+                        1 => {
+                            let args = self.permuted(vec![format!("i := {a}"), format!("go := {en}")]);
+                            out.push(format!("inner({args});"));
+                        }
                         2 => {
                             labels.push("out_binding".into());
-                            out.push(format!("inner(i := {a}, go := {en}, o => {w});"));
+                            let args = self.permuted(vec![format!("i := {a}"), format!("go := {en}"), format!("o => {w}")]);
+                            out.push(format!("inner({args});"));
                         }
                         _ => {
                             labels.push("instance_output_read".into());
                             out.push(format!("inner(go := {en});"));
                             out.push(format!("{w} := inner.o;"));
                         }
+                    }
+                }
+                15 => {
+                    let c = self.sc_en_call(sc, &mut labels);
+                    let l1 = self.new_label();
+                    if self.cfg.jmp_nested && self.r.chance(2, 3) {
+                        // backward jump out of an IF: a loop bounded by the down-counter
+                        labels.push("jmp_backward_bounded".into());
+                        out.push(format!("{} := {};", sc.guard, int_lit(sc.it, 3)));
+                        out.push(format!("{l1}: {} := {} - {};", sc.guard, sc.guard, int_lit(sc.it, 1)));
+                        out.push(format!("{w} := {c};"));
+                        out.push(format!("IF {} > {} THEN", sc.guard, int_lit(sc.it, 0)));
+                        out.push(format!("  JMP {l1};"));
+                        out.push("END_IF;".into());
+                    } else {
+                        labels.push("jmp_forward".into());
+                        out.push(format!("JMP {l1};"));
+                        out.push(format!("{w} := {};", sc.readable[0]));
+                        out.push(format!("{l1}: {w} := {c};"));
                     }
                 }
                 _ => {
@@ -1756,7 +1818,10 @@ impl<'t> Ext<'t> {
                 }
                 1 => {
                     self.feat("call:en_eno");
-                    format!("{target} := XEn(EN := {go}, a := {a}, ENO => xeno);")
+                    {
+                        let args = self.permuted(vec![format!("EN := {go}"), format!("a := {a}"), "ENO => xeno".to_string()]);
+                        format!("{target} := XEn({args});")
+                    }
                 }
                 2 => {
                     self.feat("call:class_method_this");
@@ -1764,7 +1829,10 @@ impl<'t> Ext<'t> {
                 }
                 3 => {
                     self.feat("call:fb_var_temp");
-                    format!("xfb(i := {a}, go := {go}, o => {target});")
+                    {
+                        let args = self.permuted(vec![format!("i := {a}"), format!("go := {go}"), format!("o => {target}")]);
+                        format!("xfb({args});")
+                    }
                 }
                 4 => {
                     self.feat("call:method_super");
@@ -1780,11 +1848,17 @@ impl<'t> Ext<'t> {
                 }
                 7 => {
                     self.feat("call:named_function");
-                    format!("{target} := XFn(b := {b}, a := {a});")
+                    {
+                        let args = self.permuted(vec![format!("a := {a}"), format!("b := {b}")]);
+                        format!("{target} := XFn({args});")
+                    }
                 }
                 8 | 9 => {
                     self.feat("call:function_depth2");
-                    format!("{target} := XTop(go := {go}, x := {a});")
+                    {
+                        let args = self.permuted(vec![format!("go := {go}"), format!("x := {a}")]);
+                        format!("{target} := XTop({args});")
+                    }
                 }
                 10 => {
                     self.feat("call:function_depth1");
@@ -1792,7 +1866,10 @@ impl<'t> Ext<'t> {
                 }
                 11 => {
                     self.feat("call:fb_nested_instance");
-                    format!("xouter(i := {a}, go := {go}, o => {target});")
+                    {
+                        let args = self.permuted(vec![format!("i := {a}"), format!("go := {go}"), format!("o => {target}")]);
+                        format!("xouter({args});")
+                    }
                 }
                 12 => {
                     self.feat("call:method_invoking_fb");
@@ -1800,7 +1877,12 @@ impl<'t> Ext<'t> {
                 }
                 _ => {
                     self.feat("call:class_helper_direct");
-                    format!("{target} := xcls.Helper({go}, {a});")
+                    if self.r.flag() {
+                        let args = self.permuted(vec![format!("go := {go}"), format!("x := {a}")]);
+                        format!("{target} := xcls.Helper({args});")
+                    } else {
+                        format!("{target} := xcls.Helper({go}, {a});")
+                    }
                 }
             };
             uses.push(s);
@@ -1940,20 +2022,72 @@ impl<'t> Ext<'t> {
         let rt = if self.r.flag() { T::Real } else { T::LReal };
         let st = if self.r.flag() { T::Str } else { T::WStr };
         self.feat("formal_std_call");
-        let (t, text) = match self.r.pick(10) {
-            0 => (it, format!("MUX(K := {}, IN0 := {}, IN1 := {})", self.expr(it, 1), self.expr(it, 1), self.expr(it, 1))),
-            1 => (it, format!("LIMIT(MN := {}, IN := {}, MX := {})", self.expr(it, 1), self.expr(it, 1), self.expr(it, 1))),
-            2 => (st, format!("MID(IN := {}, L := {}, P := {})", self.expr(st, 1), self.pos_arg(1), self.pos_arg(1))),
+        // every argument list is written in a drawn order; the extensible functions (MIN MAX
+        // MUX ADD MUL CONCAT GT ..) take 2-4 numbered inputs (no gaps: the checker rejects them;
+        // AND / OR / XOR have no function form in this parser)
+        let numbered = |me: &mut Ext<'_>, t: T, first: usize, n: usize| -> Vec<String> {
+            (0..n).map(|k| format!("IN{} := {}", first + k, me.expr(t, 1))).collect()
+        };
+        let (t, text) = match self.r.pick(14) {
+            0 => {
+                let n = 2 + self.r.pick(3);
+                let mut parts = numbered(self, it, 0, n);
+                parts.push(format!("K := {}", self.expr(it, 1)));
+                self.feat("formal_std:MUX");
+                (it, format!("MUX({})", self.permuted(parts)))
+            }
+            1 => {
+                let parts = vec![format!("MN := {}", self.expr(it, 1)), format!("IN := {}", self.expr(it, 1)), format!("MX := {}", self.expr(it, 1))];
+                (it, format!("LIMIT({})", self.permuted(parts)))
+            }
+            2 => {
+                let parts = vec![format!("IN := {}", self.expr(st, 1)), format!("L := {}", self.pos_arg(1)), format!("P := {}", self.pos_arg(1))];
+                (st, format!("MID({})", self.permuted(parts)))
+            }
             3 => {
                 let f = ["SHL", "SHR", "ROL", "ROR"][self.r.pick(4)];
                 let nt = [T::USInt, T::UInt, T::UDInt, T::ULInt][self.r.pick(4)];
-                (bt, format!("{f}(IN := {}, N := {})", self.expr(bt, 1), self.expr(nt, 1)))
+                let parts = vec![format!("IN := {}", self.expr(bt, 1)), format!("N := {}", self.expr(nt, 1))];
+                (bt, format!("{f}({})", self.permuted(parts)))
             }
-            4 => (it, format!("MAX(IN1 := {}, IN2 := {})", self.expr(it, 1), self.expr(it, 1))),
-            5 => (st, format!("CONCAT(IN1 := {}, IN2 := {})", self.expr(st, 1), self.expr(st, 1))),
-            6 => (T::Date, format!("CONCAT_DATE(YEAR := {}, MONTH := {}, DAY := {})", self.expr(it, 1), self.expr(it, 1), self.expr(it, 1))),
-            7 => (rt, format!("EXPT(IN1 := {}, IN2 := {})", self.expr(rt, 1), self.expr(it, 1))),
-            8 => (it, format!("SEL(G := {}, IN0 := {}, IN1 := {})", self.expr(T::Bool, 1), self.expr(it, 1), self.expr(it, 1))),
+            4 | 9 | 10 => {
+                let f = ["MAX", "MIN", "ADD", "MUL"][self.r.pick(4)];
+                let n = 2 + self.r.pick(3);
+                let parts = numbered(self, it, 1, n);
+                self.feat(&format!("formal_std:{f}:{n}"));
+                (it, format!("{f}({})", self.permuted(parts)))
+            }
+            5 => {
+                let n = 2 + self.r.pick(2);
+                let parts = numbered(self, st, 1, n);
+                self.feat("formal_std:CONCAT");
+                (st, format!("CONCAT({})", self.permuted(parts)))
+            }
+            6 => {
+                let parts = vec![format!("YEAR := {}", self.expr(it, 1)), format!("MONTH := {}", self.expr(it, 1)), format!("DAY := {}", self.expr(it, 1))];
+                (T::Date, format!("CONCAT_DATE({})", self.permuted(parts)))
+            }
+            7 => {
+                let parts = vec![format!("IN1 := {}", self.expr(rt, 1)), format!("IN2 := {}", self.expr(it, 1))];
+                (rt, format!("EXPT({})", self.permuted(parts)))
+            }
+            8 => {
+                let parts = vec![format!("G := {}", self.expr(T::Bool, 1)), format!("IN0 := {}", self.expr(it, 1)), format!("IN1 := {}", self.expr(it, 1))];
+                (it, format!("SEL({})", self.permuted(parts)))
+            }
+            11 => {
+                let f = ["GT", "GE", "EQ", "LE", "LT"][self.r.pick(5)];
+                let n = 2 + self.r.pick(2);
+                let parts = numbered(self, it, 1, n);
+                self.feat(&format!("formal_std:{f}"));
+                (T::Bool, format!("{f}({})", self.permuted(parts)))
+            }
+            12 => {
+                let n = 2 + self.r.pick(2);
+                let parts = numbered(self, rt, 1, n);
+                self.feat("formal_std:MAX_real");
+                (rt, format!("{}({})", if self.r.flag() { "MAX" } else { "MIN" }, self.permuted(parts)))
+            }
             _ => (rt, format!("{}(IN := {})", ["SQRT", "LN", "EXP", "ASIN"][self.r.pick(4)], self.expr(rt, 1))),
         };
         let ws = own(self, t);
@@ -1975,7 +2109,75 @@ impl<'t> Ext<'t> {
     fn stmt(&mut self, out: &mut Vec<String>) {
         // compound wrappers put IF / ELSIF / ELSE, CASE / ELSE and loop contexts into code that
         // is executed early in Main, with conditions on the cycle counter
-        match self.r.weighted(&[8, 4, 4, 3, 2, 2, 2]) {
+        match self.r.weighted(&[8, 4, 4, 3, 2, 2, 2, 2, 2, 1, 1]) {
+            7 => {
+                // forward jump over a statement
+                self.feat("jmp:forward");
+                let l = self.new_label();
+                let s1 = self.simple_stmt();
+                let s2 = self.simple_stmt();
+                out.push(format!("JMP {l};"));
+                out.push(s1);
+                out.push(format!("{l}: {s2}"));
+            }
+            8 => {
+                if !self.cfg.jmp_nested {
+                    self.excl("F51-JMP-out-of-a-nested-block");
+                    let s = self.simple_stmt();
+                    out.push(s);
+                    return;
+                }
+                // backward jump from inside an IF: a loop bounded by a down-counter
+                self.feat("jmp:backward_bounded");
+                let l = self.new_label();
+                let s = self.simple_stmt();
+                out.push(format!("xg := {};", int_lit(T::Int, 3)));
+                out.push(format!("{l}: xg := xg - {};", int_lit(T::Int, 1)));
+                out.push(s);
+                out.push(format!("IF xg > {} THEN", int_lit(T::Int, 0)));
+                out.push(format!("  JMP {l};"));
+                out.push("END_IF;".into());
+            }
+            9 => {
+                if !self.cfg.jmp_nested {
+                    self.excl("F51-JMP-out-of-a-nested-block");
+                    let s = self.simple_stmt();
+                    out.push(s);
+                    return;
+                }
+                // jump out of a loop body (leaves the loop) / out of a CASE arm
+                let l = self.new_label();
+                let s = self.simple_stmt();
+                let s2 = self.simple_stmt();
+                if self.r.flag() {
+                    self.feat("jmp:out_of_for");
+                    out.push(format!("FOR xk := {} TO {} DO", int_lit(T::Int, 0), int_lit(T::Int, 3)));
+                    out.push(format!("  IF xk = {} THEN", int_lit(T::Int, 2)));
+                    out.push(format!("    JMP {l};"));
+                    out.push("  END_IF;".into());
+                    out.push(format!("  {s}"));
+                    out.push("END_FOR;".into());
+                } else {
+                    self.feat("jmp:out_of_case");
+                    out.push("CASE xcyc OF".into());
+                    out.push(format!("  1, 3: JMP {l};"));
+                    out.push("ELSE".into());
+                    out.push(format!("  {s}"));
+                    out.push("END_CASE;".into());
+                }
+                out.push(format!("{l}: {s2}"));
+            }
+            10 => {
+                // a chain of forward jumps through labelled empty statements
+                self.feat("jmp:chain");
+                let a = self.new_label();
+                let b = self.new_label();
+                let s = self.simple_stmt();
+                out.push(format!("JMP {b};"));
+                out.push(format!("{a}: ;"));
+                out.push(s);
+                out.push(format!("{b}: ;"));
+            }
             1 => {
                 self.feat("wrap:if_else");
                 let cond = self.cyc_cond(0);
